@@ -794,6 +794,15 @@ func (g *Gen) Observe(o Op, r Reply) {
 			}
 		}
 	}
+	// acknowledged unstable data must be known whatever produced the write (queued follow-ups carry no pending
+	// record): a restart or a twin comparison before the COMMIT may legitimately lose it
+	if o.Proc == "write" && r.Kind == "written" && r.Code == 0 && r.Committed == 0 && r.Cnt > 0 {
+		for _, x := range g.live {
+			if x.sym == o.H {
+				g.unstableFile = x
+			}
+		}
+	}
 	p := g.pend
 	g.pend = nil
 	if p != nil && p.op.Id == o.Id && p.tag == "indwrite" && r.Code != 0 && g.filler != nil && !g.filler.dead && len(g.queue) == 0 {
